@@ -24,32 +24,49 @@ func runC10(r *Runner) {
 	}
 	flags, how := -1, ""
 	for _, p := range ld.Pkgs {
-		fn := p.Func("newPackage")
-		if fn == nil {
+		root := p.Func("newPackage")
+		if root == nil {
 			continue
 		}
-		for _, b := range fn.Blocks {
-			for _, in := range b.Instrs {
-				c, ok := in.(ssa.CallInstruction)
-				if !ok {
-					continue
-				}
-				sc := c.Common().StaticCallee()
-				if sc == nil || sc.Pkg == nil || sc.Pkg.Pkg.Path() != "os" {
-					continue
-				}
-				switch sc.Name() {
-				case "OpenFile":
-					if k, ok := c.Common().Args[1].(*ssa.Const); ok {
-						v, _ := constant.Int64Val(k.Value)
-						flags, how = int(v), "os.OpenFile flag constant in derive.newPackage"
-					} else {
-						how = "os.OpenFile with a non-constant flag argument"
+		// newPackage and every function of package derive it reaches by static calls (a helper that does the
+		// rewriting is found too); the writer of derived.gen.go itself ((*pkg).Print) is not reachable from it
+		seen := map[*ssa.Function]bool{root: true}
+		work := []*ssa.Function{root}
+		for len(work) > 0 {
+			fn := work[0]
+			work = work[1:]
+			for _, b := range fn.Blocks {
+				for _, in := range b.Instrs {
+					c, ok := in.(ssa.CallInstruction)
+					if !ok {
+						continue
 					}
-				case "Create":
-					flags, how = 0x2|0x40|0x200, "os.Create in derive.newPackage (O_RDWR|O_CREATE|O_TRUNC)"
-				case "WriteFile":
-					flags, how = 0x1|0x40|0x200, "os.WriteFile in derive.newPackage (O_WRONLY|O_CREATE|O_TRUNC)"
+					sc := c.Common().StaticCallee()
+					if sc == nil || sc.Pkg == nil {
+						continue
+					}
+					if sc.Pkg == p && !seen[sc] && sc.Blocks != nil {
+						seen[sc] = true
+						work = append(work, sc)
+						continue
+					}
+					if sc.Pkg.Pkg.Path() != "os" {
+						continue
+					}
+					where := "derive." + fn.Name()
+					switch sc.Name() {
+					case "OpenFile":
+						if k, ok := c.Common().Args[1].(*ssa.Const); ok {
+							v, _ := constant.Int64Val(k.Value)
+							flags, how = int(v), "os.OpenFile flag constant in "+where
+						} else {
+							how = "os.OpenFile with a non-constant flag argument in " + where
+						}
+					case "Create":
+						flags, how = 0x2|0x40|0x200, "os.Create in "+where+" (O_RDWR|O_CREATE|O_TRUNC)"
+					case "WriteFile":
+						flags, how = 0x1|0x40|0x200, "os.WriteFile in "+where+" (O_WRONLY|O_CREATE|O_TRUNC)"
+					}
 				}
 			}
 		}
